@@ -116,7 +116,10 @@ func NewFloatFromString(typ *types.FloatType, s string) (*Float, error) {
 			if err != nil {
 				return nil, errors.WithStack(err)
 			}
-			f := binary128.NewFromBits(a, b)
+			// Note, LLVM prints the low 64 bits of the IEEE 128-bit value first and
+			// the high 64 bits (sign, exponent and top of the significand) last,
+			// e.g. 1.0 is 0xL00000000000000003FFF000000000000.
+			f := binary128.NewFromBits(b, a)
 			x, nan := f.Big()
 			return &Float{Typ: typ, X: x, NaN: nan}, nil
 		// ppc_fp128 (PowerPC double-double arithmetic)
@@ -418,14 +421,16 @@ func (c *Float) Ident() string {
 			if c.X != nil && c.X.Signbit() {
 				a, b = binary128.NegNaN.Bits()
 			}
-			return fmt.Sprintf("0x%c%016X%016X", hexPrefix, a, b)
+			// low 64 bits first, see NewFloatFromString.
+			return fmt.Sprintf("0x%c%016X%016X", hexPrefix, b, a)
 		}
 		f, acc := binary128.NewFromBig(c.X)
 		if acc != big.Exact {
 			log.Printf("unable to represent floating-point constant %v of type %v exactly; please submit a bug report to llir/llvm with this error message", c.X, c.Typ)
 		}
 		a, b := f.Bits()
-		return fmt.Sprintf("0x%c%016X%016X", hexPrefix, a, b)
+		// low 64 bits first, see NewFloatFromString.
+		return fmt.Sprintf("0x%c%016X%016X", hexPrefix, b, a)
 	// ppc_fp128 (PowerPC double-double arithmetic)
 	case types.FloatKindPPC_FP128:
 		// always represent ppc_fp128 in hexadecimal floating-point notation.
